@@ -487,6 +487,10 @@ def _do_cut(asm, toks, block, tmpl_line):
 
 
 def _finish_cut(asm, c, text, hits, kv, secs, kind):
+    if kind == 'fn' and kv.get('rlimit') and '#[verifier::rlimit' not in text:
+        mm0 = re.search(r'(?m)^(\s*)((?:pub(?:\([a-z]+\))?\s+)?(?:const\s+)?fn\b)', text)
+        if mm0:
+            text = text[:mm0.start(2)] + '#[verifier::rlimit(%s)] ' % kv['rlimit'] + text[mm0.start(2):]
     mutations = []
     inserts = {}      # char index in text -> list of (lineno, line)
     # replaces first (they change the text the anchors look at)
@@ -656,6 +660,10 @@ def _finish_cut(asm, c, text, hits, kv, secs, kind):
             continue
         mt = mt[:idx] + to + mt[idx + len(frm):]
         nm = '%s__negctl%d' % (fname, len(asm.negctl) + 1)
+        # a control only has to fail: cap its resource limit so that it fails fast
+        _l0 = len(mt)
+        mt = re.sub(r'#\[verifier::rlimit\((\d+)\)\]', lambda m_: '#[verifier::rlimit(%d)]' % min(int(m_.group(1)), 40), mt)
+        rshift = len(mt) - _l0
         if kind == 'fn':
             mt = re.sub(r'\bfn\s+' + re.escape(fname) + r'\b', 'fn ' + nm, mt, count=1)
         else:
@@ -665,7 +673,7 @@ def _finish_cut(asm, c, text, hits, kv, secs, kind):
         nshift = len(nm) - len(fname)
         newins = {}
         for at, v in saved.items():
-            a2 = at + (nshift if at > fnkw.start() else 0)
+            a2 = at + (nshift if at > fnkw.start() else 0) + rshift
             a2 = a2 + (shift if at > idx else 0)
             newins[a2] = v
         inserts_backup = inserts
